@@ -44,6 +44,8 @@ type decl struct {
 	Name   string
 	Length uint64
 	MD5    [16]byte
+	MD516k [16]byte
+	Has16k bool
 }
 
 // BuildPAR2 returns the files of the mutated set (relative name -> bytes), the declared slice size and the declarations.
@@ -78,6 +80,12 @@ func BuildPAR2(muts []Mut) (map[string][]byte, uint64, []decl) {
 		switch {
 		case f == "slice_size":
 			sliceSize = m.Val
+		case f == "exps":
+			// whole exponent sets: the two lowest exponents form a specification-singular pair for slices 0 and 2 (constants 2^1 and 2^4: (2^3)^21845 = 1)
+			sets := [][]uint32{{0, 21845, 21846, 21847, 21848, 21849}, {0, 21845, 43690, 43691, 43692, 43693}, {21845, 43690, 1, 2, 3, 4}}
+			for j, e := range sets[m.Val%uint64(len(sets))] {
+				recs[j].exp = e
+			}
 		case f == "nrec":
 			nrecOverride = int64(m.Val)
 		case strings.HasPrefix(f, "ids:"):
@@ -229,7 +237,7 @@ func BuildPAR2(muts []Mut) (map[string][]byte, uint64, []decl) {
 	out := map[string][]byte{"set.par2": assemble(0, false), "set.vol00+06.par2": assemble(1, true)}
 	var ds []decl
 	for _, fs := range files {
-		ds = append(ds, decl{fs.f.Name, fs.f.Length, fs.f.MD5})
+		ds = append(ds, decl{fs.f.Name, fs.f.Length, fs.f.MD5, fs.f.MD516k, true})
 	}
 	return out, sliceSize, ds
 }
@@ -329,7 +337,7 @@ func BuildPAR1(muts []Mut) (map[string][]byte, []decl) {
 	}
 	var ds []decl
 	for _, e := range es {
-		ds = append(ds, decl{e.Name, e.Size, e.MD5})
+		ds = append(ds, decl{e.Name, e.Size, e.MD5, e.MD516k, true})
 	}
 	return out, ds
 }
